@@ -45,7 +45,6 @@ void slice_case(Ctx &c, Block &b, int ai) {
                     PairIdx pi = oracle_pair(ax, ps, pe, m);
                     if (s.start[d] > s.end[d]) { rg.oob = true; rg.why = "start>end"; }
                     else if (!pi.valid && s.start[d] == s.end[d]) rg = region_point(ax, ps, n);   // zero width: first element at or after the position (docs: same rules as for tags)
-                    else if (!pi.valid && s.end[d] - s.start[d] <= DBL_EPSILON) { maybe_empty = true; rg = region_point(ax, ps, n); }   // width within the library's epsilon: error or point, not judged
                     else if (!pi.valid) { rg.oob = true; rg.why = "empty"; }
                     else rg = region_range(ax, ps, pe, m, n);
                 }
